@@ -93,6 +93,13 @@ return ok
 """
         out.append(mk_case(f"c14.comb.{op}.commuted", [("a", "int"), ("b", "int"), ("c", "int"), ("u", U)],
                            body, pre=["I64(a, b, c)"] + ipre[1:]))
+    for op, sym in (("and", "&"), ("or", "|"), ("xor", "^")):
+        out.append(pair_case(f"c14.comb.{op}.repeated_operand", ii, ipre, f"Value.greater_than(a) {sym} Value.greater_than(a)",
+                             f"Value.greater_than(a) {sym} Value.less_than(b)", leaf_beh))
+        out.append(pair_case(f"c14.comb.{op}.repeated_operand.rhs", ii, ipre, f"Value.greater_than(a) {sym} Value.less_than(b)",
+                             f"Value.less_than(b) {sym} Value.less_than(b)", leaf_beh))
+        out.append(pair_case(f"c14.comb.{op}.repeated_vs_single", ii, ipre, f"Value.greater_than(a) {sym} Value.greater_than(a)",
+                             f"Value.greater_than(b)", leaf_beh))
     out.append(pair_case("c14.comb.op_changed", ii, ipre, "Value.greater_than(a) & Value.less_than(5)",
                          "Value.greater_than(b) | Value.less_than(5)", leaf_beh))
     out.append(pair_case("c14.comb.nested", ii, ipre, "(Value.greater_than(a) & Value.less_than(5)) | Value.equal_to(7)",
@@ -114,6 +121,7 @@ return ok
     out.append(pair_case("c14.part.kind_changed.map_list", ii, ipre, "MapValue(value=Value.gt(a))", "ListValue(value=Value.gt(b))", part_beh_l.replace("OBJ.filter(", "DataPath(OBJ).get_data(").replace(".keys", "")))
     out.append(pair_case("c14.part.kind_changed.mol_map", ii, ipre, "MapOrListValue(value=Value.gt(a))", "MapValue(value=Value.gt(b))", part_beh_l.replace("OBJ.filter(", "DataPath(OBJ).get_data(").replace(".keys", "")))
     out.append(pair_case("c14.part.label", ss, spre, "MapValue(key='k', label=a)", "MapValue(key='k', label=b)", "OBJ.filter({'k': u, 'j': 1}).keys"))
+    rule_beh_early = "(lambda t: (t.is_valid, t.tested, t.num_failures))(OBJ.test({'x': [u, 1, 2], 's': 'true'}))"
     # ---- paths
     pdoc2 = "{'x': [u, 1, 2], 'y': {0: 5, 1: 6}}"
     path_beh = f"OBJ.get_data({pdoc2}, return_paths=True)"
@@ -122,6 +130,13 @@ return ok
     out.append(pair_case("c14.path.str_part", ss, spre, "DataPath(a, 0)", "DataPath(b, 0)", path_beh))
     out.append(pair_case("c14.path.first_int_part", ii, ipre, "DataPath(a)", "DataPath(b)", "OBJ.get_data([u, 1, 2], return_paths=True)"))
     out.append(pair_case("c14.path.bool_vs_int_part", [("a", "int"), ("b", "bool"), ("u", U)], ["I64(a)"] + ipre[1:], "DataPath('x', a)", "DataPath('x', b)", path_beh))
+    out.append(pair_case("c14.path.part_kind.map_vs_mol", ii, ipre, "DataPath('x', MapValue(key=a))", "DataPath('x', MapOrListValue(key=b, index=b))", path_beh))
+    out.append(pair_case("c14.path.part_kind.map_vs_int", ii, ipre, "DataPath('x', MapValue(key=a))", "DataPath('x', b)", path_beh))
+    out.append(pair_case("c14.path.part_kind.list_vs_mol", ii, ipre, "DataPath('y', ListValue(index=a))", "DataPath('y', MapOrListValue(key=b, index=b))", path_beh))
+    out.append(pair_case("c14.path.mol.key_differs", ii, ipre, "DataPath('y', MapOrListValue(key=a, index=0))", "DataPath('y', MapOrListValue(key=b, index=0))", path_beh))
+    out.append(pair_case("c14.path.mol.index_differs", ii, ipre, "DataPath('x', MapOrListValue(key=0, index=a))", "DataPath('x', MapOrListValue(key=0, index=b))", path_beh))
+    out.append(pair_case("c14.path.label", ss, spre, "DataPath('x', MapValue(key='k', label=a))", "DataPath('x', MapValue(key='k', label=b))", path_beh))
+    out.append(pair_case("c14.rule.part_kind", ii, ipre, "Rule(('x', MapValue(key=a)), Value.equal_to(1))", "Rule(('x', b), Value.equal_to(1))", rule_beh_early, stubs=["cond_repr"]))
     out.append(pair_case("c14.path.length_changed", ii, ipre, "DataPath('x', a)", "DataPath('x')", path_beh))
     out.append(pair_case("c14.path.cond_part", ii, ipre, "DataPath('x', ListValue(value=Value.gt(a)))", "DataPath('x', ListValue(value=Value.gt(b)))", path_beh))
     for mod in ["length", "dtype", "map_keys", "map_values"]:
